@@ -26,16 +26,17 @@ TRUSTED = [
     "C15 environment: system calls cost zero virtual time (only _sleep and a blocking waitpid advance the clock); an interrupted waitpid returns at once; doubles are modelled by exact rationals (a logged float sleep must be the double nearest to the model's rational)",
     "C15 wait status words follow glibc's W* macros (transcribed in Model/C15.lean, checked against os.WIF*/os.W* on all 65 536 words on every run); the set iteration order inside wait_procs is an arbitrary permutation in the theorems and is fed from the observed order in the correspondence",
     "C15 Process objects are built on a fake procfs (harness/common/fakeproc.py); Process.is_running() is the real code reading that procfs, which the simulated kernel updates when a non-child ends",
+    "C15 set(procs) keeps the first inserted of several equal elements (CPython set semantics; checked on every run by the identity observations); an unhashable item is a list",
     "C15 psutil.Popen objects are built by the real Popen.__init__ with subprocess.Popen replaced by a stub (pid, returncode=None, spawns nothing); subprocess's own poll() is emulated by the harness (reaps the simulated child, stores WEXITSTATUS / -WTERMSIG as CPython's _handle_exitstatus does)",
 ]
 MANIFEST = {
-    "level_text": "Machine-checked Lean 4 proofs over a virtual-time model (exact rationals, fuelled loops) of _psposix.wait_pid, Process.wait, psutil.Popen.wait (psutil's wrapper only) and psutil.wait_procs incl. its argument checks, for EVERY exit instant, timeout, status word, EINTR pattern, set-iteration order and number of processes: never early, status decoding = wait(2) encoding for all exit codes 0-255 and signals 1-126 (with/without core), TimeoutExpired only at/after the deadline carrying seconds/pid and less than one 40 ms poll late, a process that ended by the deadline (in particular strictly between the last poll and the deadline) is never reported as timed out, sleep schedule min(0.1ms*2^n, 40ms), timeout=0 never sleeps, negative timeout -> ValueError, PID 0 -> ValueError with nothing cached, waiting for oneself can only time out, cached later calls, termination with a timeout (explicit fuel bound), EINTR cannot change a returned result; Popen.wait = Process.wait while returncode is unset, stores the returned status in both layers, answers from returncode at once afterwards; wait_procs partition / callback exactly once / returncode / gone-really-ended / alive-really-running at the return instant / return before deadline+40ms / termination with a timeout / ValueError then TypeError argument checks before anything else. Partial: 'TimeoutExpired only with the process still alive' is proved for calls whose last waitpid was not interrupted, with a proved counterexample (EINTR at the deadline) recorded as a known finding and a proof (C15_eintr_no_repair) that no waitpid-polling procedure can meet both clauses under persistent EINTR; the EINTR-at-the-deadline case (C15-eintr-deadline) is the one known finding left; 'negative timeout -> ValueError' for Popen.wait is proved at full strength for the code as it is now (C15_popen_wait_negative, through the obligation cfg_popen_validates_first), the code as found answered from a stored returncode first (proved counterexample C15_popen_wait_negative_counterexample; fixed in /repo by 3859330); syscalls cost zero virtual time. Tied to the code by 14 translator facts (0.0001, *2, 0.04, check-before-sleep, >=, >= 0 validation, 1.0/len(alive), pid<=0 check, callable check, the three-part shape of Popen.wait) feeding the proof obligation cfg_good, by a differential run of the real functions over a virtual clock comparing result/exception fields, full sleep log, return instant, callback log, subprocess returncode, and by an exhaustive sweep of all 65 536 status words.",
+    "level_text": "Machine-checked Lean 4 proofs over a virtual-time model (exact rationals, fuelled loops) of _psposix.wait_pid, Process.wait, psutil.Popen.wait (psutil's wrapper only) and psutil.wait_procs incl. its argument checks, for EVERY exit instant, timeout, status word, EINTR pattern, set-iteration order and number of processes: never early, status decoding = wait(2) encoding for all exit codes 0-255 and signals 1-126 (with/without core), TimeoutExpired only at/after the deadline carrying seconds/pid and less than one 40 ms poll late, a process that ended by the deadline (in particular strictly between the last poll and the deadline) is never reported as timed out, sleep schedule min(0.1ms*2^n, 40ms), timeout=0 never sleeps, negative timeout -> ValueError, PID 0 -> ValueError with nothing cached, waiting for oneself can only time out, cached later calls, termination with a timeout (explicit fuel bound), EINTR cannot change a returned result; Popen.wait = Process.wait while returncode is unset, stores the returned status in both layers, answers from returncode at once afterwards; wait_procs partition / callback exactly once / returncode / gone-really-ended / alive-really-running at the return instant / return before deadline+40ms / termination with a timeout / ValueError then TypeError argument checks before anything else. Partial: 'TimeoutExpired only with the process still alive' is proved for calls whose last waitpid was not interrupted, with a proved counterexample (EINTR at the deadline) recorded as a known finding and a proof (C15_eintr_no_repair) that no waitpid-polling procedure can meet both clauses under persistent EINTR; the EINTR-at-the-deadline case (C15-eintr-deadline) is the one known finding left; 'negative timeout -> ValueError' for Popen.wait is proved at full strength for the code as it is now (C15_popen_wait_negative, through the obligation cfg_popen_validates_first), the code as found answered from a stored returncode first (proved counterexample C15_popen_wait_negative_counterexample; fixed in /repo by 3859330); syscalls cost zero virtual time. Second extension: wait_procs over psutil.Popen objects and mixed Process/Popen lists is PROVED to be wait_procs over Process objects in which a stored subprocess returncode sits in _exitcode (simulation theorem C15_wait_procs_mixed_is_wait_procs through every loop), so partition / callback once / returncode / gone-ended / deadline hold for them (C15_wait_procs_mixed); of several equal-but-not-identical objects set(procs) keeps the FIRST (C15_set_keeps_first: it alone is waited on, gets returncode, is called back, is returned); an unhashable item is a TypeError after the timeout validation (C15_wait_procs_arguments_unhashable); 'callback exactly once' is proved from ANY reachable intermediate state for ANY number of further passes, with or without timeout (C15_callback_once_any_passes[_no_timeout]); system calls that take time: a costed model of wait_pid (every _timer/waitpid/_pid_exists/_sleep call overshoots by cost k <= delta) equals the zero-cost model for delta = 0 (C15_costed_zero) and satisfies every bound with 40 ms replaced by 40 ms + 5*delta, never-early and not-before-the-deadline unchanged, 'still alive' weakened to 'alive delta before the raise' (C15_costed_bounds). Tied to the code by 16 translator facts (0.0001, *2, 0.04, check-before-sleep, >=, >= 0 validation, 1.0/len(alive), pid<=0 check, callable check, the three-part shape of Popen.wait, `for proc in alive` / `alive = alive - gone` in every pass, `alive = set(procs)` after the validation) feeding the proof obligations cfg_good / cfg_popen_validates_first / cfg_wait_procs_shape, by a differential run of the real functions over a virtual clock comparing result/exception fields, full sleep log, return instant, callback log, subprocess returncode, identity of the objects returned / called back / waited on, the per-call cost sequence of costed runs (400 quick / 20 000 thorough, real wait_pid vs the costed model), by an exhaustive sweep of all 65 536 status words and by the exhaustive enumeration of 2-3 processes x exit pass (1, 2, 3, never) x timeout (None, 50 ms, 3.5 s) = 196 wait_procs runs with a callback.",
     "level_note": "Trusted: Lean kernel + {propext, Classical.choice, Quot.sound}; the translator; the correspondence harness and its simulated kernel; zero-cost syscalls; doubles = exact rationals; glibc W* macros as transcribed; subprocess.Popen replaced by a stub holding pid/returncode (its own poll() emulated as CPython's _handle_exitstatus).",
     "technique": "Lean 4 invariants over fuelled loops in virtual time (Rat) + translator-fed proof obligation + differential correspondence under a virtual clock with exhaustive status-word sweep",
     "design_ref": "DESIGN.md §5 C15",
 }
 ASSUMPTIONS = [
-    "system calls take zero virtual time; real time.sleep overshoot is outside the model",
+    "system calls take zero virtual time in every theorem except C15_costed_zero / C15_costed_bounds (wait_pid with per-call overshoot <= delta: 40 ms + 5*delta); wait_procs with costed calls is not modelled (its last attempt alone adds up to 4 calls per surviving process)",
     "Process.is_running() answers from the simulated kernel (a non-child that ended is gone from procfs; PID reuse is C01/C02's subject)",
 ]
 
